@@ -1,4 +1,5 @@
 ---- MODULE ZiTest ----
 EXTENDS FwdModelZi
-PosDef == <<<<3, 3>>, <<3, 5>>, <<7, 1>>>>
+PosDef == <<<<6, 6>>, <<6, 10>>, <<14, 2>>>>
+PosHalf == <<<<6, 7>>, <<13, 10>>, <<5, 2>>, <<16, 3>>>>
 ====
